@@ -13,7 +13,7 @@ import (
 // rt: "route table + lookups" executor shared by C01, C02, C06, C07, C13 and the router part of C14.
 //
 // case : (rt (opt ...) (def ...) (query ...))
-// opt  : (strict) (na) (fb) (cache N) (intercept 'path) (nf) (nal) (lateopt)      nf/nal = custom NotFound/NotAllowed handlers
+// opt  : (strict) (na) (fb) (cache N) (intercept 'path) (nf) (nal) (lateopt) (group 'prefix)      nf/nal = custom NotFound/NotAllowed handlers
 // def  : (('M ...) 'path nilh)           raw arguments of Router.Add; route i gets the name "r<i>"
 // query: (m 'M 'path)                    Router.Match(M, path)
 //        (s 'M 'path)                    Router.ServeHTTP with method M and URL path
@@ -59,6 +59,7 @@ func rtBuild(c Sx, caching bool) *rtRouter {
 	xs := c.Lst()
 	var opts []func(*rux.Router)
 	customNF, customNA, lateOpt := false, false, false
+	groupPrefix, inGroup := "", false
 	for _, o := range xs[1].Lst() {
 		switch o.Head() {
 		case "strict":
@@ -88,6 +89,8 @@ func rtBuild(c Sx, caching bool) *rtRouter {
 			customNA = true
 		case "lateopt":
 			lateOpt = true
+		case "group":
+			groupPrefix, inGroup = o.List[1].Str(), true
 		default:
 			panic("rt: bad option " + o.String())
 		}
@@ -112,6 +115,14 @@ func rtBuild(c Sx, caching bool) *rtRouter {
 			c.SetStatus(405)
 		})
 	}
+	register := func(body func()) { body() }
+	if inGroup { // all definitions are registered inside one group
+		register = func(body func()) {
+			defer func() { _ = recover() }()
+			rr.r.Group(groupPrefix, body)
+		}
+	}
+	register(func() {
 	for i, d := range xs[2].Lst() {
 		i := i
 		name := fmt.Sprintf("r%d", i)
@@ -149,6 +160,7 @@ func rtBuild(c Sx, caching bool) *rtRouter {
 			rr.regs = append(rr.regs, A("panic"))
 		}
 	}
+	})
 	rr.regs = append(rr.regs, rr.meths...)
 	if lateOpt { // options may only be applied while the router has no routes
 		ok := func() (ok bool) {
